@@ -5,7 +5,8 @@ From Coq Require Import Reals Lra List ZArith.
 Set Warnings "-ambiguous-paths".   (* Coquelicot's Rbar coercion notice would otherwise end up in the Print Assumptions output *)
 From Coquelicot Require Import Coquelicot.
 From PV Require Import Np.NpR Gen.GenHandles Proofs.C12Handles Proofs.C12NegBinRefuted.
-From PV Require Import Base.Index Base.Sum Np.Array Model.Repr Model.C12Gcp Proofs.C12Tensor Proofs.C12TensorR.
+From PV Require Import Base.Index Base.Sum Np.Array Model.Repr Model.C12Gcp Proofs.C12Tensor Proofs.C12TensorR Proofs.C12Mttkrps Proofs.C12Setup.
+Import List.   (* List.nth again in front of Coquelicot's *)
 Import ListNotations.
 Local Open Scope R_scope.
 
@@ -121,7 +122,24 @@ Proof.
   exact (conj (estimate_exact_F V v0 v1 vadd vmul vsub vopp Vring f As R X W E)
               (estimate_exact_G V v0 v1 vadd vmul vsub vopp Vring g As R X W E)).
 Qed.
+
+(* computing all mode gradients at once = one mode at a time: the split / partial-contraction algorithm of tensor.mttkrps
+   (left sweep over modes 0..sp with mttv_mid / mttv_left, right sweep over sp+1..N-1; Proofs/C12Mttkrps.v) returns, for EVERY
+   split index sp and every number of modes, exactly the per-mode MTTKRPs *)
+Theorem C12_mttkrps_eq : forall (s : shape) (Y : idx -> V) (As : list (list (list V))) (R sp : nat),
+  length As = length s ->
+  mttkrps_alg V v0 v1 vadd vmul s Y As R sp = map (mttkrp_den v0 v1 vadd vmul s Y As R) (seq 0 (length s)).
+Proof. exact (Proofs.C12Mttkrps.C12_mttkrps_eq V v0 v1 vadd vmul vsub vopp Vring). Qed.
+
+(* ... in particular at the split index the code chooses (min_split), which always leaves a mode on the right *)
+Theorem C12_mttkrps_py_eq : forall (s : shape) (Y : idx -> V) (As : list (list (list V))) (R : nat),
+  length As = length s -> Forall (fun d => 1 <= d)%nat s -> (2 <= length s)%nat ->
+  (S (min_split s) < length s)%nat /\
+  mttkrps_py V v0 v1 vadd vmul s Y As R = map (mttkrp_den v0 v1 vadd vmul s Y As R) (seq 0 (length s)).
+Proof. exact (Proofs.C12Mttkrps.C12_mttkrps_py_eq V v0 v1 vadd vmul vsub vopp Vring). Qed.
 End C12_T2.
+Print Assumptions C12_mttkrps_eq.
+Print Assumptions C12_mttkrps_py_eq.
 Print Assumptions C12_objective.
 Print Assumptions C12_multilinear.
 Print Assumptions C12_adjoint.
@@ -166,6 +184,32 @@ Theorem C12_gradient_poisson : forall (K : ktensor R) (X : dense R) (w : option 
 Proof. intros K X w k j r. exact (eval_gradient_lb 0 poisson poisson_grad K X w k j r (fun x m H => poisson_deriv x m H)). Qed.
 Print Assumptions C12_gradient_poisson.
 
+(* ---- the objective table of fg_setup.setup (hand model Proofs/C12Setup.v, tied by correspondence over all ten objectives) ---- *)
+(* on every data value the objective's data check lets through and every model value not below the lower bound setup
+   attaches, the gradient handle setup returns is the derivative of the loss handle it returns (nine objectives) *)
+Theorem C12_setup_sound : forall o p x m, o <> NegativeBinomial -> param_ok o p ->
+  valid_value (data_check o) x -> above_bound o m ->
+  is_derive (fun m => loss o p x m) m (grad o p x m).
+Proof. exact setup_sound. Qed.
+Print Assumptions C12_setup_sound.
+
+(* ---- A-34 setup: BEGIN block ---- *)
+(* negative binomial (finding A-34, open): consistent for data = 1 only; the loss's true derivative on m >= 0 *)
+Theorem C12_setup_negative_binomial_partial : forall p m, above_bound NegativeBinomial m ->
+  is_derive (fun m => loss NegativeBinomial p 1 m) m (grad NegativeBinomial p 1 m) /\
+  (forall x, is_derive (fun m => loss NegativeBinomial p x m) m ((p + x) / (1 + m) - x / (m + EPS))).
+Proof. exact setup_negative_binomial. Qed.
+Print Assumptions C12_setup_negative_binomial_partial.
+(* ---- END A-34 setup block ---- *)
+
+Theorem C12_setup_table :
+  map bounded_below objectives = [false; true; false; true; false; true; true; false; true; true] /\
+  map data_check objectives = [AnyData; Binary; Binary; Natural; Natural; Positive; Positive; AnyData; Positive; Positive] /\
+  map needs_param objectives = [false; false; false; false; false; false; false; true; true; true] /\
+  (forall d h, value_ok d false h = true -> valid_value d (IZR h / 2)).
+Proof. exact (conj (proj1 setup_bounds_table) (conj (proj1 (proj2 setup_bounds_table)) (conj (proj2 (proj2 setup_bounds_table)) value_ok_sound))). Qed.
+Print Assumptions C12_setup_table.
+
 (* non-vacuity: the domain hypotheses are satisfiable and the derivative values are not trivially 0 *)
 Example C12_example_poisson : is_derive (fun m => poisson 3 m) 2 (1 - 3 / (2 + EPS)).
 Proof. exact (poisson_deriv 3 2 ltac:(lra)). Qed.
@@ -189,3 +233,20 @@ Example C12_example_tensor :
   eval_G 0%Z 1%Z Z.add Z.mul g (mkK [1; 1]%Z As) X None =
   est_G 0%Z 1%Z Z.add Z.mul Z.sub g As 2 (allsubs [2; 3]%nat) (ddata X) (repeat 1%Z 6) nil [2; 3]%nat.
 Proof. vm_compute. repeat split; reflexivity. Qed.
+
+(* the mttkrps algorithm on a skewed 4-way instance, split indices 0 and 2 (more than one matrix in the middle Khatri-Rao product) *)
+Example C12_example_mttkrps :
+  let s := [3; 2; 2; 2]%nat in
+  let Y := fun i : idx => (Z.of_nat (sub2ind s i) * Z.of_nat (sub2ind s i) - 7)%Z in
+  let As := [[[1; 2]; [0; -1]; [2; 1]]; [[1; 0]; [2; 1]]; [[-1; 3]; [1; 1]]; [[2; -1]; [0; 3]]]%Z in
+  mttkrps_alg Z 0%Z 1%Z Z.add Z.mul s Y As 2 0 = map (mttkrp_den 0%Z 1%Z Z.add Z.mul s Y As 2) (seq 0 4) /\
+  mttkrps_alg Z 0%Z 1%Z Z.add Z.mul s Y As 2 2 = map (mttkrp_den 0%Z 1%Z Z.add Z.mul s Y As 2) (seq 0 4) /\
+  nth 1 (mttkrps_alg Z 0%Z 1%Z Z.add Z.mul s Y As 2 0) nil <> nth 2 (mttkrps_alg Z 0%Z 1%Z Z.add Z.mul s Y As 2 0) nil.
+Proof. vm_compute. repeat split; try reflexivity. discriminate. Qed.
+Example C12_example_setup :
+  is_derive (fun m => loss Rayleigh 0 (3 / 2) m) 0 (grad Rayleigh 0 (3 / 2) 0) /\
+  setup_accepts BernoulliOdds false (Some (false, [0; 2; 1]%Z)) = false /\
+  setup_accepts BernoulliOdds false (Some (false, [0; 2; 2]%Z)) = true /\
+  setup_accepts Poisson false (Some (true, [4; 6]%Z)) = true /\
+  setup_accepts Huber false None = false.
+Proof. exact setup_example. Qed.
